@@ -65,6 +65,44 @@ Theorem C19_numpy_dense :
 Proof. intros. eapply getitem_dense; eauto. Qed.
 Print Assumptions C19_numpy_dense.
 
+(* The EVALUATED SET.  A request that passes the checks makes element requests (calls of the
+   element cache, hence possibly of eval) for exactly the positions NumPy selects - for paired
+   lists on several axes the pairs, NOT the Cartesian box of the per-axis selections -, each
+   once (NoDup), in np.where (sorted) order, stopping at the first exception; the positions
+   may be computed on a dense array of any sufficient extent.  In particular an element
+   outside the selected set is never requested, so an eval that would raise there cannot
+   make the request fail, and nothing outside the set gets cached by the request itself.
+   (C19_numpy states the same list for successful requests only.) *)
+Theorem C19_evaluated_set :
+  forall (X : Type) (xdefault : X) (g : bcallback X) (hd : bshead) (s : sid) (item : list ix)
+         (w : bworld X) (ext ext' shp : list nat) (poss : list (list nat)),
+    existsb order_bad (skipn (length (fshape hd)) item) = false ->
+    length item = length (fshape hd) + bninf hd ->
+    extents (skipn (length (fshape hd)) item) = IOk ext ->
+    Forall2 le ext ext' ->
+    np_index (fshape hd ++ ext') item = IOk (shp, poss) ->
+    bs_getitem_full xdefault g hd s item w =
+      match eval_positions g s (sort_uniq poss) w with
+      | (Ok evald, w') =>
+          (Ok (if np_scalar (fshape hd ++ ext') item
+               then RScalar (hd_default xdefault (map (value_at xdefault evald) poss))
+               else RArray shp (map (value_at xdefault evald) poss)), w')
+      | (Raise x, w') => (Raise x, w')
+      | (OutOfFuel, w') => (OutOfFuel, w')
+      end /\
+    NoDup (sort_uniq poss) /\
+    (forall p, In p (sort_uniq poss) <-> In p poss) /\
+    (* the cache is asked for a prefix of that list, all of it iff no exception occurs *)
+    (exists rest, sort_uniq poss = requested g s (sort_uniq poss) w ++ rest) /\
+    (forall l w', eval_positions g s (sort_uniq poss) w = (Ok l, w') ->
+                  requested g s (sort_uniq poss) w = sort_uniq poss).
+Proof.
+  intros. split; [eapply getitem_evaluated_set; eauto|].
+  split; [apply sort_uniq_NoDup|]. split; [intros; apply in_sort_uniq|].
+  split; [apply requested_prefix|]. intros. eapply requested_all; eauto.
+Qed.
+Print Assumptions C19_evaluated_set.
+
 (* The independence of the extent by itself. *)
 Theorem C19_extent_independent :
   forall (fs : list nat) (item : list ix) (ext ext' : list nat),
